@@ -22,6 +22,7 @@ def run(repo, run, tier):
     raw_reads(repo, run, fn)
     searches(repo, run, fn, idx)
     dense_branch(repo, run, fn, idx)
+    int_semantics(repo, run, fn, idx)
     length(repo, run)
 
 
@@ -38,10 +39,12 @@ def int_guard(repo, run, fn, idx):
     br = _branch(fn, lambda t: src(t) == "isinstance(%s, int)" % idx)
     if br is None:
         raise AnalysisError("anchor missing: `isinstance(index, int)` branch of __getitem__")
-    guard = next((st for st in br.body if isinstance(st, ast.If) and any(isinstance(x, ast.Raise) for x in ast.walk(st))), None)
+    guard = next((st for st in br.body if isinstance(st, ast.If) and any(isinstance(x, ast.Raise) for b_ in (st.body, st.orelse) for x in b_) and
+                  ("self.counter" in src(st.test) or "len(self)" in src(st.test))), None)
     if guard is None:
-        run.judged(rid, "guard present", ok=False)
-        run.report("C19.1", DS, br, "the integer branch has no out-of-range guard", text="missing integer guard")
+        # no single linear guard of the form `index <op> counter`: the sequence semantics of the branch are decided by C19.1b (interpretation)
+        run.judged(rid, "no single linear upper guard: semantics decided by C19.1b", nontrivial=False)
+        run.judged(rid, "(see C19.1b)", nontrivial=False)
         return
     c = Canon()
     t = guard.test
@@ -77,6 +80,80 @@ def int_guard(repo, run, fn, idx):
     run.judged(rid, "integer read: StateTuple(t=self.t[index], y=self.y[index])", ok=okr)
     if not okr:
         run.report("C19.1", DS, br, "the integer branch does not return (self.t[index], self.y[index]) from the trimmed views", text="integer read")
+
+
+def int_semantics(repo, run, fn, idx):
+    """the integer branch, interpreted for every index in [-2n-4, n+3] and n+1 recorded rows (n = 0, 1, 4), behaves like indexing a list of the recorded rows:
+    rows -(n+1)..n answer with row (k mod n+1) for time AND state, everything else raises IndexError (numpy's own negative-index wrap is part of the model,
+    so an index that the code shifts and numpy then wraps a second time is seen)"""
+    from ..absint import Interp, Domain, OPAQUE, Raised
+    rid = run.rule("C19.1b", "sequence semantics of the integer branch by abstract interpretation over concrete (rows, index) pairs: a valid index reads the same row of "
+                             "t and y as a list would, any other index raises IndexError", floor=20)
+    br = _branch(fn, lambda t: src(t) == "isinstance(%s, int)" % idx)
+    if br is None:
+        raise AnalysisError("anchor missing: `isinstance(index, int)` branch of __getitem__")
+    synth = ast.FunctionDef(name="int_branch", args=ast.arguments(posonlyargs=[], args=[], kwonlyargs=[], kw_defaults=[], defaults=[]), body=list(br.body),
+                            decorator_list=[], type_params=[])
+
+    class _Self:
+        pass
+
+    class _Arr:
+        def __init__(self, name, n):
+            self.name, self.n = name, n
+
+    class Dom(Domain):
+        def __init__(self, n):
+            self.n = n
+
+        def attribute(self, obj, attr, node, interp):
+            if isinstance(obj, _Self):
+                if attr == "counter":
+                    return self.n
+                if attr in ("t", "y", "__t", "__y"):
+                    return _Arr(attr, self.n + 1)
+            return NotImplemented
+
+        def load_subscript(self, obj, i, node, interp):
+            if isinstance(obj, _Arr):
+                if not isinstance(i, int) or isinstance(i, bool):
+                    return OPAQUE
+                if -obj.n <= i < obj.n:
+                    return (obj.name, i % obj.n)
+                raise Raised("IndexError (numpy)")
+            return NotImplemented
+
+        def call(self, name, node, args, kwargs, interp):
+            if name == "StateTuple":
+                return ("state", kwargs.get("t"), kwargs.get("y"))
+            if name == "len" and args and isinstance(args[0], _Self):
+                return self.n + 1
+            return NotImplemented
+    bad = []
+    total = 0
+    for n in (0, 1, 4):
+        for k in range(-2 * n - 4, n + 4):
+            it = Interp(Dom(n), max_paths=64)
+            outs = list(it.all_paths(synth, {"self": _Self(), idx: k}))
+            total += 1
+            valid = -(n + 1) <= k <= n
+            for outcome, val, _ in outs:
+                if valid:
+                    want = k % (n + 1)
+                    ok = outcome == "return" and isinstance(val, tuple) and val[0] == "state" and isinstance(val[1], tuple) and isinstance(val[2], tuple) and \
+                        val[1][1] == want and val[2][1] == want and val[1][0].endswith("t") and val[2][0].endswith("y")
+                else:
+                    ok = outcome == "raise"
+                if not ok:
+                    bad.append((n + 1, k, outcome, val if outcome == "return" else "raised"))
+            run.judged(rid, "rows=%d index=%d: %s" % (n + 1, k, "ok" if not [b for b in bad if b[0] == n + 1 and b[1] == k] else bad[-1][2:]), ok=not [b for b in bad if b[0] == n + 1 and b[1] == k])
+    if bad:
+        ex = bad[0]
+        desc = ("returns row %s of t / %s of y instead of raising IndexError" % (ex[3][1], ex[3][2])) if ex[2] == "return" and isinstance(ex[3], tuple) else (
+            "raises although the index is valid" if ex[2] == "raise" else "does not return the addressed row")
+        run.report("C19.1b", DS, br, "with %d recorded rows, index %d %s (%d of %d (rows, index) pairs disagree with sequence semantics): e.g. an index below -len that the code "
+                                     "shifts by len is wrapped a second time by numpy and silently answers with a row from the end" % (ex[0], ex[1], desc, len(bad), total),
+                   text="integer-branch sequence semantics: first failing (rows=%d, index=%d)" % (ex[0], ex[1]))
 
 
 def raw_reads(repo, run, fn):
